@@ -24,7 +24,8 @@ GEN = common.COQ / "Gen" / "SaveOps.v"
 HEADER = """From Coq Require Import List String.
 Import ListNotations.
 From EV Require Import Model.Fs Gen.SaveOps.
-Open Scope string_scope."""
+Open Scope string_scope.
+Definition ops_dat := resolve (Some "dat") save_ops.  (* a fresh run advertises <prefix><uuid>.dat *)"""
 VALS = [None, ("Old", True), ("Old", False), ("New", True), ("New", False), ("Other", True), ("Other", False)]
 ADV_FILE = "snap_c27.dat"
 
@@ -55,14 +56,14 @@ def parse(s):
 
 
 def name_str(n) -> str:
-    """parsed Coq name -> 'Adv' | 'Sfx:new'"""
+    """parsed Coq name -> 'Adv' | 'Sfx:new' | 'App:new'"""
     if n == "Adv":
         return "Adv"
-    return "Sfx:" + n[1]
+    return n[0] + ":" + n[1]
 
 
 def name_coq(n: str) -> str:
-    return "Adv" if n == "Adv" else f'(Sfx "{n[4:]}")'
+    return "Adv" if n == "Adv" else f'({n[:3]} "{n[4:]}")'
 
 
 def val_coq(v) -> str:
@@ -94,19 +95,40 @@ def parse_ev(e):
     raise ValueError(f"event {e}")
 
 
-def path_of(d: pathlib.Path, n: str) -> pathlib.Path:
-    adv = d / ADV_FILE
-    return adv if n == "Adv" else adv.with_suffix("." + n[4:])
+def path_of(d: pathlib.Path, n: str, adv_name: str = None) -> pathlib.Path:
+    adv = d / (adv_name or ADV_FILE)
+    if n == "Adv":
+        return adv
+    if n.startswith("App:"):
+        return adv.with_name(adv.name + "." + n[4:])
+    return adv.with_suffix("." + n[4:])
 
 
-def name_of_path(d: pathlib.Path, p) -> str:
+def name_of_path(d: pathlib.Path, p, adv_name: str = None) -> str:
+    """canonical model name of a real path (the representative chosen by Model/Fs.v: canon)"""
     p = pathlib.Path(p)
-    adv = d / ADV_FILE
+    adv = d / (adv_name or ADV_FILE)
     if p == adv:
         return "Adv"
-    if p.parent == adv.parent and p.stem == adv.stem:
+    if p.parent == adv.parent and p.suffix and p.stem == adv.stem:
         return "Sfx:" + p.suffix[1:]
+    if p.parent == adv.parent and p.name.startswith(adv.name + ".") and p.name[len(adv.name) + 1:].isalnum():
+        return "App:" + p.name[len(adv.name) + 1:]
     return "?" + p.name
+
+
+def class_of(adv_name: str):
+    """the aliasing class (Model/Fs.v: sg) of an advertised file name: its last suffix or None"""
+    suf = pathlib.PurePath(adv_name).suffix
+    return suf[1:] if suf else None
+
+
+def adv_of_class(sg) -> str:
+    return "run" if sg is None else "run." + sg
+
+
+def is_default_name(adv_name) -> bool:
+    return adv_name is None or adv_name.endswith(".dat")
 
 
 # ---- the real routine under interposition -------------------------------------------------------
@@ -120,7 +142,7 @@ class Snapshots:
         from pulser.backend import Occupation
 
         mr.quiet()
-        cfg = MPSConfig(observables=[Occupation(evaluation_times=[0.5, 1.0])], dt=10,
+        cfg = MPSConfig(observables=[Occupation(evaluation_times=[0.5, 1.0])], dt=10, autosave_dt=20,
                         log_level=logging.ERROR)
         seq = mr.make_sequence(n_atoms=2, duration=20)
         (sd,) = mr.sequence_datas(seq, cfg)
@@ -166,8 +188,9 @@ class Snapshots:
 class Recorder:
     """Wrappers bound to the module-level names of emu_mps.mps_backend_impl while save_simulation runs."""
 
-    def __init__(self, d: pathlib.Path, crash_after, mode: str):
+    def __init__(self, d: pathlib.Path, crash_after, mode: str, adv_name: str = None):
         self.d = d
+        self.adv_name = adv_name
         self.crash_after = crash_after  # crash right after this many events (0 = before the first call)
         self.mode = mode  # 'empty': crash inside a write leaves an empty file; 'half': half of the bytes
         self.events = []
@@ -185,7 +208,7 @@ class Recorder:
             raise mr.Crash()
 
     def nm(self, p):
-        n = name_of_path(self.d, p)
+        n = name_of_path(self.d, p, self.adv_name)
         if n.startswith("?"):
             self.unknown.append(n)
         return n
@@ -276,7 +299,7 @@ class _Proxy:
         return getattr(self._real, k)
 
 
-def run_real(snaps: Snapshots, initial, crash_after, mode="empty", keep=None):
+def run_real(snaps: Snapshots, initial, crash_after, mode="empty", keep=None, adv_name=None):
     """Populate a scratch directory as `initial` ([[name, value]]), run the REAL save_simulation of a
     solver object carrying token New with a crash after `crash_after` events; returns what happened."""
     import emu_mps.mps_backend_impl as im
@@ -284,11 +307,11 @@ def run_real(snaps: Snapshots, initial, crash_after, mode="empty", keep=None):
     with mr.scratch_dir("c27") as d:
         for n, v in initial:
             if v is not None:
-                path_of(d, n).write_bytes(snaps.content(tuple(v)))
+                path_of(d, n, adv_name).write_bytes(snaps.content(tuple(v)))
         obj = real_pickle.loads(snaps.blob["New"])
-        obj.autosave_file = d / ADV_FILE
+        obj.autosave_file = d / (adv_name or ADV_FILE)
         obj.last_save_time = float("-inf")  # the time trigger fires
-        rec = Recorder(d, crash_after, mode)
+        rec = Recorder(d, crash_after, mode, adv_name)
         os_proxy = _Proxy(os, rename=rec.rename, replace=rec.replace, remove=rec.remove, unlink=rec.remove,
                           path=_Proxy(os.path, getsize=rec.getsize))
         outcome = "completed"
@@ -307,12 +330,12 @@ def run_real(snaps: Snapshots, initial, crash_after, mode="empty", keep=None):
             except OSError as ex:
                 outcome = "raised"
                 err = f"{type(ex).__name__}: {ex}"
-        names = sorted({n for n, _ in initial} | {name_of_path(d, p) for p in d.iterdir()})
-        after = {n: snaps.classify(path_of(d, n)) if not n.startswith("?") else ["?", True] for n in names}
+        names = sorted({n for n, _ in initial} | {name_of_path(d, p, adv_name) for p in d.iterdir()})
+        after = {n: snaps.classify(path_of(d, n, adv_name)) if not n.startswith("?") else ["?", True] for n in names}
         res = {"outcome": outcome, "error": err, "events": rec.events, "after": after,
                "unknown_paths": rec.unknown, "resume": None}
         if keep is not None:  # attempt the real resume from the advertised path
-            res["resume"] = try_resume(d / ADV_FILE)
+            res["resume"] = try_resume(d / (adv_name or ADV_FILE))
             res["dir_listing"] = sorted(p.name for p in d.iterdir())
         return res
 
@@ -364,8 +387,8 @@ class _FileProxy:
 
 
 class DiskOracle:
-    def __init__(self, d: pathlib.Path, snaps: "Snapshots"):
-        self.d, self.snaps = d, snaps
+    def __init__(self, d: pathlib.Path, snaps: "Snapshots", adv_name: str = None):
+        self.d, self.snaps, self.adv_name = d, snaps, adv_name
         self.points = []  # [label, {file name: classification}]
         self._cache = {}
 
@@ -384,7 +407,7 @@ class DiskOracle:
                     self._cache[k] = [getattr(real_pickle.loads(b), "_verif_token", "?"), True, len(b)]
                 except Exception:
                     self._cache[k] = [None, False, len(b)]
-            st[name_of_path(self.d, p)] = self._cache[k]
+            st[name_of_path(self.d, p, self.adv_name)] = self._cache[k]
         self.points.append([label, st])
 
     def wrap(self, label, fn):
@@ -399,14 +422,14 @@ class DiskOracle:
     def open(self, path, mode="r", *a, **k):
         if "w" not in mode and "a" not in mode and "+" not in mode:
             return open(path, mode, *a, **k)
-        n = name_of_path(self.d, path)
+        n = name_of_path(self.d, path, self.adv_name)
         self.point(f"before open({n})")
         fh = open(path, mode, *a, **k)
         self.point(f"after open({n})")
         return _FileProxy(fh, self, n)
 
 
-def run_disk_oracle(snaps: Snapshots, initial):
+def run_disk_oracle(snaps: Snapshots, initial, adv_name=None):
     """Run the REAL save_simulation (token New) from the directory `initial` and return the on-disk content at
     every crash point: before and immediately after each file-system call and each write of the dump."""
     import emu_mps.mps_backend_impl as im
@@ -414,12 +437,12 @@ def run_disk_oracle(snaps: Snapshots, initial):
     with mr.scratch_dir("c27o") as d:
         for n, v in initial:
             if v is not None:
-                path_of(d, n).write_bytes(snaps.content(tuple(v)))
+                path_of(d, n, adv_name).write_bytes(snaps.content(tuple(v)))
         obj = real_pickle.loads(snaps.blob["New"])
-        obj.autosave_file = d / ADV_FILE
+        obj.autosave_file = d / (adv_name or ADV_FILE)
         obj.last_save_time = float("-inf")
-        orc = DiskOracle(d, snaps)
-        nm = lambda p: name_of_path(d, p)  # noqa: E731
+        orc = DiskOracle(d, snaps, adv_name)
+        nm = lambda p: name_of_path(d, p, adv_name)  # noqa: E731
         os_proxy = _Proxy(
             os,
             rename=lambda a, b: orc.wrap(f"os.rename({nm(a)}, {nm(b)})", os.rename)(a, b),
@@ -442,26 +465,35 @@ def run_disk_oracle(snaps: Snapshots, initial):
         return {"points": orc.points, "error": err}
 
 
-def disk_oracle_check(ctx, snaps, initial, size) -> bool:
-    r = run_disk_oracle(snaps, initial)
+def alias_key(adv_name, missing: bool, default_missing: str, default_partial: str) -> str:
+    if is_default_name(adv_name):
+        return default_missing if missing else default_partial
+    return "advertised-file-removed-by-alias" if missing else "advertised-name-is-temp-name"
+
+
+def disk_oracle_check(ctx, snaps, initial, size, adv_name=None) -> bool:
+    r = run_disk_oracle(snaps, initial, adv_name)
     init = dict((n, v) for n, v in initial)
     ok = True
     for i, (label, st) in enumerate(r["points"]):
-        ctx.count_case({"oracle": "disk", "size": size, "initial": initial, "point": label, "dir": st}, True)
+        ctx.count_case({"oracle": "disk", "size": size, "adv": adv_name, "initial": initial, "point": label,
+                        "dir": st}, True)
         v = st.get("Adv")
         if good_value(init.get("Adv")) and not (v is not None and v[1] and v[0] in ("Old", "New")):
-            key = "autosave-window" if v is None else "advertised-file-truncated-at-crash"
-            what = (f"a kill at crash point #{i} ({label}) leaves "
+            key = alias_key(adv_name, v is None, "autosave-window", "advertised-file-truncated-at-crash")
+            what = ((f"advertised file named {adv_name!r}: " if adv_name else "")
+                    + f"a kill at crash point #{i} ({label}) leaves "
                     + ("no file" if v is None else f"a truncated / unloadable file of {v[2]} bytes")
                     + " under the advertised autosave name (previous complete snapshot already gone)")
-            ctx.violation(what, {"case": {"oracle": "disk", "size": size, "initial": initial, "point": i},
+            ctx.violation(what, {"case": {"oracle": "disk", "size": size, "initial": initial, "point": i,
+                                          "adv": adv_name},
                                  "label": label, "on_disk": st, "trail": [p[0] for p in r["points"][: i + 1]],
                                  "finding_key": key})
             ok = False
             break
     if ok and not r["error"] and r["points"][-1][1].get("Adv", [None])[0] != "New":
         ctx.violation("a completed autosave did not leave the new snapshot under the advertised name",
-                      {"case": {"oracle": "disk", "size": size, "initial": initial, "point": None},
+                      {"case": {"oracle": "disk", "size": size, "initial": initial, "point": None, "adv": adv_name},
                        "on_disk": r["points"][-1][1], "finding_key": "stale-autosave"})
         ok = False
     return ok
@@ -518,6 +550,64 @@ def sigkill_case(ctx, snaps, size):
                            "finding_key": "autosave-window" if v is None else "advertised-file-truncated-at-crash"})
 
 
+ALIAS_NAMES = ["run.bak", "run.new", "run", "job.7.dat", "x.y.bak", "run.tmp"]
+
+
+class _Stop(BaseException):
+    pass
+
+
+def alias_resume_case(ctx, snaps, adv_name) -> bool:
+    """A user's copy of an autosave called `adv_name` is resumed with the real MPSBackend.resume; the resumed run
+    autosaves again (fake clock) and is killed right after that autosave returned: the advertised file must still
+    be a complete snapshot, and resuming from it again must work and clean up."""
+    import emu_mps.mps_backend as mb
+    import emu_mps.mps_backend_impl as im
+    from emu_mps import MPSBackend
+
+    orig = im.MPSBackendImpl.save_simulation
+    state = {"saves": 0}
+
+    def save_then_die(self):
+        before = self.last_save_time
+        orig(self)
+        if self.last_save_time != before:
+            state["saves"] += 1
+            raise _Stop()
+
+    with mr.scratch_dir("c27a") as d:
+        adv = d / adv_name
+        adv.write_bytes(snaps.blob["Old"])
+        clock = mr.FakeClock()
+        err = ""
+        with mr.rebound(im, time=clock), mr.rebound(mb, time=clock), \
+                mr.rebound(im.MPSBackendImpl, save_simulation=save_then_die):
+            try:
+                MPSBackend.resume(adv)
+            except _Stop:
+                pass
+            except Exception as ex:  # noqa: BLE001
+                err = f"{type(ex).__name__}: {str(ex)[:200]}"
+        v = snaps.classify(adv)
+        files = sorted(q.name for q in d.iterdir())
+        second = try_resume(adv) if state["saves"] else None
+        left = sorted(q.name for q in d.iterdir())
+        ctx.count_case({"oracle": "alias-resume", "adv": adv_name, "autosaves": state["saves"], "after_kill": v,
+                        "files": files, "second_resume": second, "left": left}, True)
+        if err or not state["saves"]:
+            ctx.notes.append(f"alias-resume {adv_name}: no autosave happened in the resumed run ({err})")
+            return True
+        ok = v is not None and v[1] and (second or {}).get("ok") and not left
+        if not ok:
+            what = (f"a run resumed from a file named {adv_name!r} autosaved and was killed right after: the "
+                    f"advertised file is {'missing' if v is None else 'not loadable' if not v[1] else 'present'}; "
+                    f"files {files}; second resume {second}; files left at the end {left}")
+            ctx.violation(what, {"case": {"oracle": "alias-resume", "adv": adv_name, "size": "small"},
+                                 "finding_key": alias_key(adv_name, v is None or bool(left), "autosave-window",
+                                                          "advertised-file-truncated-at-crash")})
+        return bool(ok)
+
+
 # ---- property oracle on the real directory (independent of the model) -----------------------------
 def good_value(v) -> bool:
     return v is not None and v[1] is True and v[0] in ("Old", "New")
@@ -535,7 +625,9 @@ def property_check(ctx, case, r) -> bool:
         what = ("after a crash during a later autosave the advertised autosave file is "
                 + ("missing" if v is None else "not a complete old/new snapshot" if not good_value(v) else "not resumable")
                 + f" (crash after call #{case['crash_after']}: {r['events'][-1] if r['events'] else 'start'})")
-        ctx.violation(what, {"case": case, "real": r, "finding_key": "autosave-window"})
+        ctx.violation((f"advertised file named {case['adv']!r}: " if case.get("adv") else "") + what,
+                      {"case": case, "real": r,
+                       "finding_key": alias_key(case.get("adv"), v is None, "autosave-window", "autosave-window")})
     return ok
 
 
@@ -548,19 +640,20 @@ def fallback_names():
     """names to explore when the translator refuses the source: the suffixes mentioned in save_simulation"""
     m = re.search(r"def save_simulation\(self\).*?(?=\n    def )", SRC.read_text(), flags=re.S)
     sufs = sorted(set(re.findall(r"with_suffix\(\s*[\"'](\.\w+)[\"']", m.group(0) if m else "")))
-    return ["Adv"] + ["Sfx:" + s[1:] for s in sufs if s != ".dat"][:3]
+    apps = sorted(set(re.findall(r"\.name\s*\+\s*[\"'](\.\w+)[\"']", m.group(0) if m else "")))
+    return (["Adv"] + ["Sfx:" + s[1:] for s in sufs if s != ".dat"] + ["App:" + s[1:] for s in apps])[:3]
 
 
-def refutation_file(k: int, init) -> str:
+def refutation_file(k: int, init, ops="save_ops") -> str:
     return (f"""{HEADER}
 From EV Require Import Proofs.FsProofs.
 (* generated by the C27 check: machine-checked witness that the CURRENT save_simulation violates C27 *)
-Theorem C27_refuted_safe_false : safe save_ops = false.
+Theorem C27_refuted_safe_false : safe ({ops}) = false.
 Proof. vm_compute. reflexivity. Qed.
 Theorem C27_refuted :
   let s0 := of_listing {listing_coq(init)} in
   holds s0 Old /\\
-  exists s', nth_error (trace Posix New save_ops s0) {k} = Some s' /\\ ~ (holds s' Old \\/ holds s' New).
+  exists s', nth_error (trace Posix New ({ops}) s0) {k} = Some s' /\\ ~ (holds s' Old \\/ holds s' New).
 Proof.
   split; [reflexivity|]. eexists. split; [vm_compute; reflexivity|].
   unfold holds. intros [H|H]; vm_compute in H; discriminate.
@@ -594,38 +687,55 @@ def run(ctx):
     names = fallback_names()
     safe = None
     bad_posix = None
+    model_witnesses = []
     if model_ok:
         try:
             ev = common.CoqEval("C27a", HEADER)
-            ev.add("(safe save_ops, fresh save_ops, completes save_ops, names_of save_ops)")
-            ev.add("find_bad_on Posix save_ops")
-            ev.add("find_bad_on Windows save_ops")
-            ev.add("show_run Posix save_ops after_first_save")
+            ev.add("(safe save_ops, fresh save_ops, completes save_ops, names_of ops_dat)")
+            ev.add("(all_classes safe save_ops, all_classes fresh save_ops, all_classes completes save_ops)")
+            ev.add("map (fun sg => (sg, safe (resolve sg save_ops), fresh (resolve sg save_ops), "
+                   "completes (resolve sg save_ops), find_bad_on Posix (resolve sg save_ops), "
+                   "find_bad_on Windows (resolve sg save_ops))) (Some \"dat\" :: classes save_ops)")
+            ev.add("show_run Posix ops_dat after_first_save")
             o = [parse(x) for x in ev.run()]
-            safe, fresh, completes, ns = o[0]
+            safe_sym, fresh, completes, ns = o[0]
+            safe_all, fresh_all, completes_all = o[1]
+            safe = bool(safe_sym) and bool(safe_all)
             names = [name_str(n) for n in ns]
             ctx.extra["generated_ops"] = info["ops"]
             ctx.extra["model_second_autosave_posix"] = [parse_ev(e) for e, _ in o[3][0]]
-            ctx.obligation("fresh save_ops = true (vm_compute)", bool(fresh),
+            ctx.obligation("all_classes fresh save_ops = true (vm_compute)", bool(fresh) and bool(fresh_all),
                            "a completed autosave does not always leave the new snapshot under the advertised name")
-            ctx.obligation("completes save_ops = true (vm_compute)", bool(completes),
-                           "save_simulation raises from a tidy directory on some platform")
+            ctx.obligation("all_classes completes save_ops = true (vm_compute)", bool(completes) and bool(completes_all),
+                           "save_simulation raises from a tidy directory on some platform / for some advertised name")
             detail = ""
-            for pl, w in (("Posix", o[1]), ("Windows", o[2])):
-                if w is not None:
-                    init, k, after = w
-                    wit = {"platform": pl, "initial": parse_listing(init), "crash_index": k,
-                           "after": parse_listing(after)}
-                    ctx.extra.setdefault("model_witness", []).append(wit)
-                    detail += f"{pl}: from {wit['initial']} a crash after {k} events leaves {wit['after']}; "
-                    if pl == "Posix":
-                        bad_posix = wit
-            ctx.obligation("safe save_ops = true (vm_compute on the generated operation list)", bool(safe), detail)
+            classes_out = []
+            seen_sg = set()
+            for sg, sf, fr, cp, wp, ww in o[2]:
+                if sg in seen_sg:
+                    continue
+                seen_sg.add(sg)
+                classes_out.append({"advertised_suffix": sg, "safe": bool(sf), "fresh": bool(fr), "completes": bool(cp)})
+                for pl, w in (("Posix", wp), ("Windows", ww)):
+                    if w is not None:
+                        init, k, after = w
+                        wit = {"platform": pl, "advertised_suffix": sg, "adv": adv_of_class(sg),
+                               "initial": parse_listing(init), "crash_index": k, "after": parse_listing(after)}
+                        ctx.extra.setdefault("model_witness", []).append(wit)
+                        detail += (f"advertised name ending in {('.' + sg) if sg else 'no suffix'} / {pl}: from "
+                                   f"{wit['initial']} a crash after {k} events leaves {wit['after']}; ")
+                        if pl == "Posix" and bad_posix is None:
+                            bad_posix = wit
+            ctx.extra["alias_classes"] = classes_out
+            ctx.obligation("all_classes safe save_ops = true (vm_compute on the generated operation list, every way the "
+                           "advertised file name can end)", bool(safe), detail)
             if not safe and bad_posix:
                 f = common.BUILD / "assum" / "C27_refuted.v"
                 f.parent.mkdir(parents=True, exist_ok=True)
+                sgc = "None" if bad_posix["advertised_suffix"] is None else f'(Some "{bad_posix["advertised_suffix"]}")'
                 f.write_text(refutation_file(bad_posix["crash_index"],
-                                             [(n, None if v is None else tuple(v)) for n, v in bad_posix["initial"]]))
+                                             [(n, None if v is None else tuple(v)) for n, v in bad_posix["initial"]],
+                                             ops=f"resolve {sgc} save_ops"))
                 rc, out = common.coqc_file(f)
                 ctx.obligation("C27_refuted (witness of the violation machine-checked by coqc; build/assum/C27_refuted.v)",
                                rc == 0 and "Closed under the global context" in out, out, kind="refutation")
@@ -652,7 +762,7 @@ def run(ctx):
         try:
             ev = common.CoqEval("C27b", HEADER)
             for s in states:
-                ev.add(f"show_run Posix save_ops (of_listing {listing_coq([(n, None if v is None else tuple(v)) for n, v in s])})")
+                ev.add(f"show_run Posix ops_dat (of_listing {listing_coq([(n, None if v is None else tuple(v)) for n, v in s])})")
             for s, o in zip(states, ev.run()):
                 (evs, fin) = parse(o)
                 model_runs[json.dumps(s)] = {
@@ -667,9 +777,18 @@ def run(ctx):
     # corpus first (minimal witnesses of past findings), then the sweep
     n_viol_before = len(ctx.violations)
     for c in corpus_cases():
-        r = run_real(snaps, c["initial"], c["crash_after"], c.get("mode", "empty"), keep=True)
+        if c.get("oracle") == "disk":
+            disk_oracle_check(ctx, snaps, c["initial"], "small", c.get("adv"))
+            continue
+        r = run_real(snaps, c["initial"], c["crash_after"], c.get("mode", "empty"), keep=True, adv_name=c.get("adv"))
         property_check(ctx, c, r)
         ctx.count_case({"corpus": c}, True)
+    # the model's witnesses for aliasing advertised names, replayed on a real directory
+    for wit in [w for w in ctx.extra.get("model_witness", []) if w["platform"] == "Posix"]:
+        c = {"initial": wit["initial"], "crash_after": wit["crash_index"], "mode": "empty", "adv": wit["adv"]}
+        r = run_real(snaps, c["initial"], c["crash_after"], "empty", keep=True, adv_name=c["adv"])
+        property_check(ctx, c, r)
+        ctx.count_case({"model_witness_replayed": c, "after": r["after"]}, True)
 
     # crash-instant disk oracle (needs no model): small and large (> 64 KiB buffers) snapshots
     big = Snapshots(pad=60000)
@@ -684,6 +803,11 @@ def run(ctx):
     for size, sn in (("big", big), ("small", snaps)):
         for ini in o_inits:
             disk_oracle_check(ctx, sn, ini, size)
+    # advertised files with other names (a resumed run advertises whatever path the user passed): paths alias
+    for adv_name in ALIAS_NAMES:
+        disk_oracle_check(ctx, snaps, [["Adv", ["Old", True]]], "small", adv_name)
+        alias_resume_case(ctx, snaps, adv_name)
+    disk_oracle_check(ctx, big, [["Adv", ["Old", True]]], "big", "run.bak")
     if ctx.thorough():
         sigkill_case(ctx, big, "big")
         sigkill_case(ctx, snaps, "small")
@@ -761,6 +885,8 @@ def run(ctx):
         "the advertised name is self.autosave_file (what the log tells the user to resume from)",
         "no other process touches the autosave files; one autosave at a time",
         "a partially written pickle is not loadable (checked for the snapshots used)",
+        "file-name suffixes are alphanumeric (pathlib with_suffix semantics: the last suffix is replaced, or appended "
+        "when there is none)",
     ]
 
 
@@ -772,12 +898,19 @@ def replay(ctx, path):
                       found_input=False)
         return
     c = rp["case"]
+    if c.get("oracle") == "alias-resume":
+        if alias_resume_case(ctx, Snapshots(), c["adv"]):
+            print("replay: property holds on this input now")
+        else:
+            print(json.dumps(ctx.samples[-1:], indent=1, default=str))
+        return
     if c.get("oracle") == "disk":
-        sn = Snapshots(pad=60000 if c["size"] == "big" else 0)
-        r = run_disk_oracle(sn, c["initial"])
+        sn = Snapshots(pad=60000 if c.get("size") == "big" else 0)
+        r = run_disk_oracle(sn, c["initial"], c.get("adv"))
+        print("advertised file name:", c.get("adv") or ADV_FILE)
         for i, (label, st) in enumerate(r["points"]):
             print(f"#{i:2d} {label:45s} {st}")
-        if disk_oracle_check(ctx, sn, c["initial"], c["size"]):
+        if disk_oracle_check(ctx, sn, c["initial"], c.get("size", "small"), c.get("adv")):
             print("replay: property holds on this input now")
         return
     if c.get("oracle") == "sigkill":
@@ -788,7 +921,8 @@ def replay(ctx, path):
             print("replay: property holds on this input now")
         return
     snaps = Snapshots()
-    r = run_real(snaps, c["initial"], c["crash_after"], c.get("mode", "empty"), keep=True)
+    r = run_real(snaps, c["initial"], c["crash_after"], c.get("mode", "empty"), keep=True, adv_name=c.get("adv"))
+    print("advertised file   :", c.get("adv") or ADV_FILE)
     print("initial directory :", c["initial"])
     print("calls before crash:", r["events"])
     print("directory after   :", r["after"], r.get("dir_listing"))
